@@ -157,6 +157,21 @@ func run(c *props.Ctx) {
 	c.R.Extra["family_rebuilding_functions"] = nf
 	c.R.Floor("FAM-1", 5)
 	c.R.Floor("FAM-2", 4)
+	perMk := map[string]int{}
+	for _, m := range eng.FamilyMakes(fns) {
+		if c.P.IsControl(m.Fn.Pos()) {
+			continue
+		}
+		k := c.P.FuncName(m.Fn) + "→make:float" + fmt.Sprint(m.Family)
+		perMk[k]++
+		construct := fmt.Sprintf("%s#%d", k, perMk[k])
+		if m.OK {
+			c.R.Hold("FAM-3", construct, c.P.Pos(m.At.Pos()), m.Detail)
+		} else {
+			c.R.Violate("FAM-3", construct, c.P.Pos(m.At.Pos()), m.Detail)
+		}
+	}
+	c.R.Floor("FAM-3", 8)
 	c.R.Floor("WF-1", 5)
 	c.R.Floor("IDX-4", 1)
 	c.R.Floor("IDX-5", 30)
